@@ -232,17 +232,26 @@ def oracle(run):
             return dict(NA)
         return U.leak_class(run, c)
 
-    def cause_of(c, snap):
-        """why the stream of call c is still open somewhere -- from observations only"""
-        if c in snap['held'] and snap['buffered'] and snap['h2'][c][0] == 'c':
-            return 'rst-held'          # client h2 closed the stream, its RST_STREAM is still in h2's send buffer
+    HANDLER_KINDS = ('stream-open-after-handler-exit', 'stream-half-open-after-error-status', 'client-call-hangs')
+
+    def cause_of(c, snap, kind):
+        """why the stream of call c is still open somewhere -- from observations only.  Kinds that state
+        what the SERVER owed at the end of its handler are explained by how the handler ended, whatever the
+        client did later (e.g. its own RST still held back while its writing is paused); kinds about the
+        client's exit reaching the server look at the client's send buffer first."""
+        held = c in snap['held'] and snap['buffered'] and snap['h2'][c][0] == 'c'
         cl = cls_of(c)
+        handler = None
         if cl['terminal_frame'] == 'none' and not cl['reset_received']:
             if cl['handler_end'] == 'BaseException':
-                return 'd4'
-            if cl['aexit_interrupted']:
-                return 'cancelled-while-sending-terminal'
-        return 'other'
+                handler = 'd4'
+            elif cl['aexit_interrupted']:
+                handler = 'cancelled-while-sending-terminal'
+        if kind in HANDLER_KINDS:
+            return handler or ('rst-held' if held else 'other')
+        if held:
+            return 'rst-held'          # client h2 closed the stream, its RST_STREAM is still in h2's send buffer
+        return handler or 'other'
 
     def involved(kind, c, snap):
         if c is not None and kind in ('stream-open-after-handler-exit', 'stream-half-open-after-error-status',
@@ -262,8 +271,8 @@ def oracle(run):
         if not cs:
             return [dict(NA, kind=kind, cause='n/a')]
         out = []
-        for cause in sorted({cause_of(d, snap) for d in cs}):
-            classes = [cls_of(d) for d in cs if cause_of(d, snap) == cause]
+        for cause in sorted({cause_of(d, snap, kind) for d in cs}):
+            classes = [cls_of(d) for d in cs if cause_of(d, snap, kind) == cause]
             cl = classes[0] if all(x == classes[0] for x in classes) else \
                 {'handler_end': 'mixed', 'terminal_frame': 'mixed', 'reset_received': False, 'aexit_interrupted': False}
             out.append(dict(cl, kind=kind, cause=cause))
